@@ -51,7 +51,7 @@ GenPointTraits == <<"Debug", "Clone", "Copy", "PartialEq", "Eq", "PartialOrd", "
                     "Display", "FromStr", "Serialize", "Deserialize">>
 GenPointDecls ==
   {[fam |-> "any", ty |-> "Gen<Point>", san |-> <<>>, vmode |-> "none", val |-> <<>>,
-    traits |-> GenPointTraits \o <<c>>, dflt |-> <<>>] : c \in {"From", "TryFrom"}}
+    traits |-> GenPointTraits \o <<c>>, dflt |-> <<>>] : c \in {"From"}}       \* (`impl<T> TryFrom<T> for Nt<T>` overlaps core's blanket impl)
 
 DeclSpace ==
   PointDecls \cup GenPointDecls \cup
